@@ -161,6 +161,28 @@ pub fn cal_def(c: &Cal, hols: &[NaiveDateTime], mask: &[u8], lo: i64, hi: i64) -
     let h: Vec<i64> = hols.iter().map(nd).filter(|d| *d >= lo && *d <= hi).collect();
     json!({"bits": bitmap(lo, hi, |d| c.is_bus_day(d)), "hols": h, "mask": mask})
 }
+/// what the Python-facing GETTERS of the three calendar classes show (`holidays`, `week_mask`; `calendars`,
+/// `settlement_calendars`; `name`, `union_cal`), next to what the object answers
+pub fn pyv_cal(c: &Cal, lo: i64, hi: i64) -> Value {
+    match guard(|| cpy::cal_view(c)) {
+        Outcome::Ok(Ok((h, w))) => json!({"o": "ok", "hols": h.iter().map(nd).filter(|d| *d >= lo && *d <= hi).collect::<Vec<i64>>(), "mask": w}),
+        Outcome::Ok(Err(e)) => json!({"o": e}),
+        Outcome::Panic(_) => json!({"o": "panic"}),
+    }
+}
+pub fn pyv_union(u: &UnionCal, lo: i64, hi: i64) -> Value {
+    match guard(|| cpy::union_parts(u)) {
+        Outcome::Ok((m, s)) => json!({"o": "ok", "mb": m.iter().map(|c| bitmap(lo, hi, |d| c.is_bus_day(d))).collect::<Vec<Value>>(),
+                                      "sb": s.as_ref().map(|v| v.iter().map(|c| bitmap(lo, hi, |d| c.is_bus_day(d))).collect::<Vec<Value>>()).unwrap_or_default(), "hs": s.is_some()}),
+        Outcome::Panic(_) => json!({"o": "panic"}),
+    }
+}
+pub fn pyv_named(n: &NamedCal, want: &str, lo: i64, hi: i64) -> Value {
+    match guard(|| cpy::named_parts(n)) {
+        Outcome::Ok((name, u)) => json!({"o": "ok", "name": name, "want_name": want, "ubus": bitmap(lo, hi, |d| u.is_bus_day(d)), "ustl": bitmap(lo, hi, |d| u.is_settlement(d))}),
+        Outcome::Panic(_) => json!({"o": "panic"}),
+    }
+}
 /// the same, with the projections of the individually built member / settlement calendars of a union
 pub fn event_u<T: DateRoll>(key: &str, kind: &str, cal: &T, parts: (&Vec<Cal>, &Option<Vec<Cal>>), lo: i64, hi: i64, q: Vec<Value>) -> Value {
     let mut e = event(key, kind, cal, lo, hi, q);
@@ -234,14 +256,19 @@ pub fn replay(cases: &str, out: &str) {
             o.emit(&e);
             let pc = PyCal(bcal.clone());
             let q = battery(&pc, q0, q1, nmax, true);
-            o.emit(&event(&format!("gen/{}/PyCal", i), "PyCal", &pc, lo, hi, q));
+            let mut e = event(&format!("gen/{}/PyCal", i), "PyCal", &pc, lo, hi, q);
+            e["defs"] = json!([cal_def(&bcal, &bh, &mask(&c["mask"]), lo, hi)]);
+            e["pyv"] = pyv_cal(&pc.0, lo, hi);
+            o.emit(&e);
         }
         let parts = (vec![bcal.clone()], Some(vec![scal.clone()]));
         let u = UnionCal::new(parts.0.clone(), parts.1.clone());
         if i % 4 == 1 {
             let pu = PyUnion(u);
             let q = battery(&pu, q0, q1, nmax, true);
-            o.emit(&event_u(&format!("gen/{}/PyUnionCal", i), "PyUnionCal", &pu, (&parts.0, &parts.1), lo, hi, q));
+            let mut e = event_u(&format!("gen/{}/PyUnionCal", i), "PyUnionCal", &pu, (&parts.0, &parts.1), lo, hi, q);
+            e["pyv"] = pyv_union(&pu.0, lo, hi);
+            o.emit(&e);
         } else if i % 2 == 0 {
             let q = battery(&u, q0, q1, nmax, true);
             o.emit(&event_u(&format!("gen/{}/UnionCal", i), "UnionCal", &u, (&parts.0, &parts.1), lo, hi, q));
@@ -385,7 +412,10 @@ pub fn record(seed: u64, n: usize, out: &str) {
                     let pc = PyCal(c);
                     let q = random_queries(&pc, &mut r, centre, nq, lo, hi);
                     wd.leave();
-                    o.emit(&event(&format!("rnd/{}/PyCal", i), "PyCal", &pc, lo, hi, q));
+                    let mut e = event(&format!("rnd/{}/PyCal", i), "PyCal", &pc, lo, hi, q);
+                    e["defs"] = json!([def]);
+                    e["pyv"] = pyv_cal(&pc.0, lo, hi);
+                    o.emit(&e);
                 } else {
                     let q = random_queries(&c, &mut r, centre, nq, lo, hi);
                     wd.leave();
@@ -421,7 +451,9 @@ pub fn record(seed: u64, n: usize, out: &str) {
                     let pu = PyUnion(u);
                     wd.enter(&format!("rnd/{}/PyUnionCal", i));
                     let q = random_queries(&pu, &mut r, centre, nq, lo, hi);
-                    o.emit(&with_defs(event_u(&format!("rnd/{}/PyUnionCal", i), "PyUnionCal", &pu, (&members, &settle), lo, hi, q)));
+                    let mut e = with_defs(event_u(&format!("rnd/{}/PyUnionCal", i), "PyUnionCal", &pu, (&members, &settle), lo, hi, q));
+                    e["pyv"] = pyv_union(&pu.0, lo, hi);
+                    o.emit(&e);
                 } else if r.coin() {
                     wd.enter(&format!("rnd/{}/UnionCal", i));
                     let q = random_queries(&u, &mut r, centre, nq, lo, hi);
@@ -444,7 +476,9 @@ pub fn record(seed: u64, n: usize, out: &str) {
                 if r.chance(0.3) {
                     let pn = PyNamed(c);
                     let q = random_queries(&pn, &mut r, centre, nq, lo, hi);
-                    o.emit(&event_u(&format!("rnd/{}/PyNamedCal:{}", i, name), "PyNamedCal", &pn, parts, lo, hi, q));
+                    let mut e = event_u(&format!("rnd/{}/PyNamedCal:{}", i, name), "PyNamedCal", &pn, parts, lo, hi, q);
+                    e["pyv"] = pyv_named(&pn.0, name, lo, hi);
+                    o.emit(&e);
                 } else if r.coin() {
                     let q = random_queries(&c, &mut r, centre, nq, lo, hi);
                     o.emit(&event_u(&format!("rnd/{}/NamedCal:{}", i, name), "NamedCal", &c, parts, lo, hi, q));
